@@ -39,6 +39,10 @@ def scope(tier, seed):
                 'EDIT': 'histories query / edit the same object (every single added edge, toggled label, or a '
                         'replaced labelling function with extra non-state keys) / query on the 82 '
                         'representatives x 46 formulas',
+                'MED': '40 structures with 5-7 states (rings with chords, chains into loops, two components, trees '
+                       'with back edges, seed-generated) x size<=1, a stride of size 2, depth-3 towers, 4-5-ary and/or',
+                'TOWER': 'all 2401 depth-4 towers of unary CTL operators over p, and 4-5-ary and/or, on the 82 '
+                         'representatives',
                 'ATOMS': '82 representatives x 8 atom renamings (S/R, L/T, kripke/states, True/False, ...) x '
                          'size<=1 and negation-rich formulas',
                 'B': '3836 iso-representatives of K(3) x 144 formulas size<=1',
@@ -72,6 +76,10 @@ def plan(tier, seed):
         sh.append(['ATOMS', lo, hi])
     for lo, hi in chunks(82, 4):
         sh.append(['S0', lo, hi])
+    for i in range(40):
+        sh.append(['MED', i])
+    for lo, hi in chunks(82, 4):
+        sh.append(['TOWER', lo, hi])
     if tier == 'quick':
         for lo, hi in chunks(3836, 48):
             sh.append(['Brep', lo, hi])
@@ -164,6 +172,23 @@ def run_shard(shard, tier, seed, acc):
                 Kl = lib.to_kripke(k)
                 for f in full:
                     check_one(k, Kl, f, acc)
+        return
+    if kind == 'MED':
+        # 5-7 states: every formula of size<=1, a stride of size 2, depth-3 towers, wide and/or
+        k = spaces.medium_kripkes(seed)[shard[1]]
+        Kl = lib.to_kripke(k)
+        forms = _forms_le(1, spaces.LEAVES2) + spaces.ctl_by_size(2, spaces.LEAVES2)[(seed % 5)::5] + \
+            spaces.ctl_towers(3)[::3] + spaces.wide_props()
+        for f in forms:
+            check_one(k, Kl, f, acc)
+        acc.sample({'k': k.to_json(), 'formulas': 'size<=1, stride of size 2, towers, 4-5-ary and/or'})
+        return
+    if kind == 'TOWER':
+        forms = spaces.ctl_towers(4) + spaces.wide_props()
+        for k in (spaces.kripke_reps(1) + spaces.kripke_reps(2))[shard[1]:shard[2]]:
+            Kl = lib.to_kripke(k)
+            for f in forms:
+                check_one(k, Kl, f, acc)
         return
     if kind == 'S0':
         # initial states are part of the structure but not of the semantics of modelcheck: the
